@@ -522,6 +522,7 @@ func (s *Stage) Recover() {
 				oldest = info.ModTime()
 			}
 			base := strings.TrimSuffix(path, compExt)
+			s.finishMoved(cmp)
 			if s.isStaleWait(cmp, base) {
 				// Not the version this companion describes: finalizing it would
 				// deliver the old content under the new version's hash
@@ -638,6 +639,33 @@ func (s *Stage) isStaleWait(cmp *sts.Partial, base string) bool {
 	}
 	hash, err := fileutil.FileMD5(base + waitExt)
 	return err == nil && hash != cmp.Hash
+}
+
+// finishMoved completes the move of an earlier version of a file that was
+// interrupted between the two renames of fileutil.Move after a newer version
+// had begun to arrive: the companion then describes the newer version, and the
+// file left under its lock name in the target directory is the one the log
+// says was received.
+func (s *Stage) finishMoved(cmp *sts.Partial) {
+	targetName := cmp.Name
+	if cmp.Renamed != "" {
+		targetName = cmp.Renamed
+	}
+	targetPath := filepath.Join(s.targetDir, targetName)
+	lockPath := targetPath + fileutil.LockExt
+	hash, err := fileutil.FileMD5(lockPath)
+	if err != nil || hash == cmp.Hash {
+		return
+	}
+	now := time.Now()
+	if !s.logger.WasReceived(cmp.Name, hash, now.Add(-1*time.Hour*24*30), now) {
+		return
+	}
+	if err = os.Rename(lockPath, targetPath); err != nil {
+		s.logError("Failed to finish interrupted move:", lockPath, err.Error())
+		return
+	}
+	s.logInfo("Finished interrupted move:", targetPath)
 }
 
 // recoverMoved looks for a validated file whose move to the target directory was
